@@ -35,6 +35,7 @@ try:
     buildworld.install(eng)
     chk.assumptions += buildjob.ASSUMPTIONS
     buildjob.record_new_state_facts(chk, 'C01')
+    buildjob.job_completion_blocks(chk, 'C01')
     chk.finish(depscheck.make_replay(chk, rep, scn))
 finally:
     rep.cleanup()
